@@ -58,6 +58,8 @@ def pystr_int(ev, t):
         for ch in ("\n", "\r", "\0"):   # direct consequences of the numeral shape (saves the solver a regex argument)
             ev.st.assume(z3.Not(z3.Contains(r, z3.StringVal(ch))))
         ev.st.assume(z3.Implies(t >= 0, z3.And(z3.Length(r) == declen(t))))
+        ev.st.assume(z3.Implies(t >= 0, z3.InRe(r, DIGITS)))          # no sign for a non-negative number
+        ev.st.assume(z3.And(int_ok(r), int_of(r) == t))              # int(str(n)) == n
     return r
 
 
